@@ -39,6 +39,17 @@ end Dos
 section Prodos
 open A2Verif.Fs.Prodos A2Verif.C12FsId.Prodos
 
+/-- **C12 / ProDOS, now**: with `read_index_block` saturating (`prodosIndexEofSaturating`), the listing, `get` of any
+non-empty path and `stat` of a freshly mounted volume do not panic, on every image of 512-byte blocks. -/
+theorem prodos_reads_no_panic_now (r : Raw) (hu : Units512 r) (src : Repairs) :
+    (catalog [47] (fresh r src)).1 ≠ .error .panic ∧
+    (∀ path, path ≠ [] → (getV Gen.C12FsFlags.prodosIndexEofSaturating path (fresh r src)).1 ≠ .error .panic) ∧
+    (statFree (fresh r src)).1 ≠ .error .panic ∧ testImg r ≠ .error .panic := by
+  have h : Gen.C12FsFlags.prodosIndexEofSaturating = true := by decide
+  rw [h]
+  have := prodos_reads_fixed_no_panic r hu src
+  exact ⟨this.1, fun p hp => (this.2.2.2.1 p hp).1, this.2.2.2.2, prodos_testImg_no_panic r hu⟩
+
 /-- **C12 / ProDOS, the same for the code as it is now**: checks exactly when the source has the visit budget
 (`Gen.C12FsFlags.prodosVisitBudget`, derived by `translator/gen_c12fs.py` from `tree_node` and `glob_node`); the
 nesting-cap flags are whatever the source says. -/
@@ -65,5 +76,37 @@ theorem prodos_nesting_cap_is_error_now (budget : Bool) (r : Raw) (total b : Nat
   exact ⟨by unfold walkNode; rfl, by unfold walkNode; rfl, by decide, by decide⟩
 
 end Prodos
+
+section Fat
+open A2Verif.C12FsWalk
+
+/-- **C12 / FAT, now**: `fat::Disk::tree_node` and `glob_node` carry the visit budget (`fatVisitBudget`), so the bound of
+`fat_walk_budget_bounded` holds for the walk with the flags of the current source; the nesting cap is 64 and its branch
+returns `Err`. -/
+theorem fat_walk_bounded_now {σ δ : Type} (k : Skel σ δ) (limit : Nat) (root : δ) (st : σ) :
+    (walk k Gen.C12FsFlags.fatVisitBudget Gen.C12FsFlags.fatTreeCapErr limit (Gen.C12FsFlags.fatMaxDirectoryDepth + 1) root (st, 0)).2.2 ≤ limit + 1 ∧
+    (walk k Gen.C12FsFlags.fatVisitBudget Gen.C12FsFlags.fatGlobCapErr limit Gen.C12FsFlags.fatMaxDirectoryDepth root (st, 0)).2.2 ≤ limit + 1 ∧
+    Gen.C12FsFlags.fatTreeCapErr = true ∧ Gen.C12FsFlags.fatGlobCapErr = true ∧ Gen.C12FsFlags.fatMaxDirectoryDepth = 64 := by
+  have h : Gen.C12FsFlags.fatVisitBudget = true := by decide
+  rw [h]
+  exact ⟨(fat_walk_budget_bounded k _ limit _ root st).1, (fat_walk_budget_bounded k _ limit _ root st).1, by decide, by decide, by decide⟩
+
+end Fat
+
+section Cpm
+open A2Verif.Fs.Cpm A2Verif.C12FsId.Cpm
+open A2Verif.Read.Cpm (Dpb)
+
+/-- **C12 / CP/M, now**: with `num_free_blocks` saturating and overlapping extent numbers refused (`cpmFreeSaturating`,
+`cpmOverlapErr`), the read-only queries of an identified volume do not panic. -/
+theorem cpm_mounted_reads_no_panic_now (d : Dpb) (r : Raw) (hv3 : d.v3 = true) (hm : testImg d r = .ok true) :
+    statV Gen.C12FsFlags.cpmFreeSaturating d r ≠ .error .panic ∧ catalog d r ≠ .error .panic ∧ globV d r ≠ .error .panic ∧
+    ∀ name absIdx, getV Gen.C12FsFlags.cpmOverlapErr d r name absIdx ≠ .error .panic := by
+  have h1 : Gen.C12FsFlags.cpmFreeSaturating = true := by decide
+  have h2 : Gen.C12FsFlags.cpmOverlapErr = true := by decide
+  rw [h1, h2]
+  exact cpm_mounted_reads_fixed_no_panic d r hv3 hm
+
+end Cpm
 
 end A2Verif.C12Fs
